@@ -537,6 +537,24 @@ def _param_names(rec):
     return out[1:]
 
 
+def _const_renames(all_consts, known_consts):
+    """{current path: known path} for renamed local constants: same module, same type, same value, unique both ways"""
+    if not known_consts:
+        return {}
+    local = lambda k: k.split("::")[0] in ("dns_types", "dns_resolver", "resolved", "dnsq", "htoh", "htoz", "ztoh", "ztoz")
+    cur = {k: [c.get("ty"), c.get("val")] for k, c in all_consts.items() if local(k)}
+    gone = [k for k in known_consts if k not in cur]
+    new = [k for k in cur if k not in known_consts]
+    parent = lambda k: k.rsplit("::", 1)[0] if "::" in k else ""
+    out = {}
+    for g in gone:
+        cands = [n for n in new if parent(n) == parent(g) and cur[n] == known_consts[g]]
+        back = [g2 for g2 in gone if cands and parent(g2) == parent(g) and known_consts[g2] == cur[cands[0]]]
+        if len(cands) == 1 and len(back) == 1:
+            out[cands[0]] = g
+    return out
+
+
 def _adt_renames(all_adts, known_fields):
     """{current type path: path in the tree the rules were written against} for renamed local types: a known type that is
     gone is paired with a new type of the same module whose variants and fields are the same (names and types, the type's
@@ -798,6 +816,11 @@ class Program:
             for k_, a_ in parsed[t].get("adts", {}).items():
                 all_adts.setdefault(k_, a_)
         self.renamed_types = _adt_renames(all_adts, known_fields)              # current path -> the path the rules use
+        all_consts = {}
+        for t in factsmod.EXPECTED_TARGETS:
+            for k_, c_ in parsed[t].get("consts", {}).items():
+                all_consts.setdefault(k_, c_)
+        self.renamed_types.update(_const_renames(all_consts, inlinemod.load_known_json("known_consts.json")))
         if self.renamed_types:
             for t in factsmod.EXPECTED_TARGETS:
                 texts[t] = _apply_fn_renames(texts[t], self.renamed_types)
